@@ -19,6 +19,12 @@ func checkC13(c *Ctx) {
 	r.Rule("R13.3", "the logging call returns normally on a failed Write: no explicit panic and no single-result assertion on the error value in the sink, the fan-out and the helpers they call")
 	r.Rule("R13.5", "bounded reaction inside the destinations' wrappers: the package's own writer wrappers forward Write once, without a loop or retry")
 	r.Rule("R13.4", "no sticky state: on the failure handling path (sink, fan-out, their in-package helpers) nothing but locals is stored: no field, global, or element of the writer lists is written, so a failing destination is never removed, marked or remembered")
+	r.Rule("R02.1", "(shared with C02) at most one diagnostic per record presupposes one emission per record: no path of a spine function makes two emission calls")
+	r.Rule("R08.3", "(shared with C08) failures leave no sticky state in the pools: the attribute slice is put back exactly once on every path, the formatting context after the Write")
+	r.Rule("R02.6", "(shared with C02) pooled formatting buffer discipline")
+	r.Rule("R01.1", "(shared with C01) the diagnostic is admitted by the logger's level like any record: it re-enters through a gated entry point")
+	r.Rule("R01.2", "(shared with C01) no extra guard below the gate")
+	r.Rule("R01.6", "(shared with C01) gate forms")
 	r.Assume("a destination reports failure through the error result of Write and keeps no state the package depends on")
 	for _, tags := range c.Configs([]string{""}, []string{"", "verbose"}) {
 		p := c.Prog(tags)
@@ -32,6 +38,9 @@ func checkC13(c *Ctx) {
 		}
 		c13Fanout(c, p, m)
 		c13Reaction(c, p, m)
+		c02Counts(c, p, m)
+		c08Pools(c, p, m)
+		c01Gates(c, p, m, tags)
 		wrapperForwarding(c, p, "R13.5")
 		noLockAcrossDiagnostic(c, p, m)
 	}
@@ -215,6 +224,19 @@ func c13Reaction(c *Ctx, p *Prog, m *Model) {
 				ls = append(ls, l)
 			}
 			sort.Strings(ls)
+			// the diagnostic goes to THIS logger (its warning destinations, its level): the re-entry is a method call on the
+			// sink's own receiver, not a package-level function (the default logger) or another logger
+			sameLogger := false
+			if cal.Signature.Recv() != nil && len(cs.Common().Args) > 0 && receiver(fn) != nil {
+				for _, sv := range sources(cs.Common().Args[0]) {
+					if sv == ssa.Value(receiver(fn)) {
+						sameLogger = true
+					}
+				}
+			}
+			if !sameLogger && fn != cal.Parent() {
+				r.Bad("R13.2", key+":logger", p.Pos(instrPos(cs)), "the diagnostic is not issued on the logger whose destination failed (%s is not called on the sink's receiver): it goes to the default logger's destinations and is admitted by the default logger's level", shortName(cal))
+			}
 			switch {
 			case fn == cal.Parent():
 				continue
